@@ -304,23 +304,23 @@ func (c *Ctx) Finish(seed int64, levelText string, assumptions []string) int {
 	}
 	sort.Strings(rules)
 	cov := map[string]any{
-		"explanation": levelText,
-		"obligations": len(c.Obls),
-		"discharged":  discharged,
-		"known_findings": nKnown,
-		"stale_findings": stale,
-		"new_violations": len(newV),
-		"evaluations": sites,
+		"explanation":         levelText,
+		"obligations":         len(c.Obls),
+		"discharged":          discharged,
+		"known_findings":      nKnown,
+		"stale_findings":      stale,
+		"new_violations":      len(newV),
+		"evaluations":         sites,
 		"distinct_nontrivial": distinct,
 		"rule": "each obligation = (rule id, construct) evaluated on the typed syntax tree / per-function CFG of /repo's working tree; " +
 			"evaluations = sites examined; distinct_nontrivial = obligations with >=1 examined site; rules: " + strings.Join(rules, "; "),
-		"samples":            samples,
-		"packages":           len(c.P.Pkgs),
-		"functions_indexed":  c.P.NFuncs,
-		"frozen_exceptions":  c.Excepts,
-		"checker_cmd":        "./run.sh " + c.Prop + " " + c.Tier,
-		"trusted_base":       []string{"go/packages + go/types (Go toolchain)", "golang.org/x/tools v0.29.0 go/cfg", "the rule tables in checker/props"},
-		"exhaustive":         false,
+		"samples":           samples,
+		"packages":          len(c.P.Pkgs),
+		"functions_indexed": c.P.NFuncs,
+		"frozen_exceptions": c.Excepts,
+		"checker_cmd":       "./run.sh " + c.Prop + " " + c.Tier,
+		"trusted_base":      []string{"go/packages + go/types (Go toolchain)", "golang.org/x/tools v0.29.0 go/cfg", "the rule tables in checker/props"},
+		"exhaustive":        false,
 	}
 	for k, v := range c.Extra {
 		cov[k] = v
